@@ -273,26 +273,24 @@ fn dirty_buffers() -> Vec<Vec<SliderEvent>> {
 
 fn grid(tier: Tier) -> (Vec<Vec<f64>>, Vec<u64>) {
     let t = tier.thorough();
-    let spans: Vec<f64> = if t { (1..=10).map(f64::from).collect() } else { (1..=8).map(f64::from).collect() };
-    let ratio: Vec<f64> = if t {
-        let mut r: Vec<f64> = (0..=96).map(|k| f64::from(k) / 64.0).collect();
-        r.extend([0.01, 1.0 / 3.0, 0.49, 0.51, 0.99, f64::INFINITY]);
-        r
-    } else {
-        vec![0.0, 0.01, 0.05, 0.1, 0.2, 0.25, 0.3, 1.0 / 3.0, 0.4, 0.49, 0.5, 0.51, 0.75, 0.9, 0.99, 1.0, 1.5, f64::INFINITY]
-    };
+    let spans: Vec<f64> = (1..=tier.pick(10, 16)).map(f64::from).collect();
+    // tick distance as a fraction of the length: a dense dyadic ladder plus values next to the interesting fractions,
+    // a negative one (clamped to zero) and "no ticks"
+    let steps = tier.pick(64, 128);
+    let mut ratio: Vec<f64> = (0..=steps * 3 / 2).map(|k| f64::from(k) / f64::from(steps)).collect();
+    ratio.extend([0.01, 1.0 / 3.0, 0.49, 0.51, 0.99, -0.5, f64::INFINITY]);
     let len: Vec<f64> = if t {
+        vec![0.5, 1.0, 10.0, 36.0, 50.0, 99.5, 100.0, 137.5, 360.0, 500.0, 1000.0, 20_000.0, 99_999.0, 100_000.0, 100_000.5, 150_000.0]
+    } else {
         vec![1.0, 10.0, 50.0, 99.5, 100.0, 137.5, 500.0, 1000.0, 20_000.0, 99_999.0, 100_000.0, 150_000.0]
-    } else {
-        vec![1.0, 50.0, 100.0, 137.5, 1000.0, 99_999.0, 100_000.0, 150_000.0]
     };
-    let vel: Vec<f64> = if t { vec![0.1, 0.5, 1.0, 1.4, 2.5, 5.0, 9.95, 20.0] } else { vec![0.1, 0.5, 1.0, 2.5, 5.0, 20.0] };
+    let vel: Vec<f64> = if t { vec![0.01, 0.1, 0.5, 1.0, 1.4, 2.5, 5.0, 9.95, 10.0, 20.0] } else { vec![0.1, 0.5, 1.0, 1.4, 2.5, 5.0, 9.95, 20.0] };
     let dur: Vec<f64> = if t {
-        vec![10.0, 36.0, 71.9, 72.0, 72.1, 100.0, 333.3, 1000.0, 5000.0, 60_000.0]
+        vec![1.0, 5.0, 10.0, 12.0, 17.9, 18.0, 24.0, 36.0, 71.9, 72.0, 72.1, 100.0, 333.3, 1000.0, 5000.0, 60_000.0]
     } else {
-        vec![10.0, 71.9, 72.0, 72.1, 100.0, 333.3, 1000.0, 5000.0]
+        vec![1.0, 10.0, 24.0, 36.0, 71.9, 72.0, 72.1, 100.0, 333.3, 1000.0, 5000.0, 60_000.0]
     };
-    let start: Vec<f64> = vec![0.0, 1000.5, -250.0, 1e7];
+    let start: Vec<f64> = if t { vec![0.0, 1000.5, -250.0, 1e7, -0.0, 2_147_483_647.0] } else { vec![0.0, 1000.5, -250.0, 1e7] };
     let menus = vec![spans, ratio, len, vel, dur, start];
     let radices = menus.iter().map(|m| m.len() as u64).collect();
     (menus, radices)
@@ -482,7 +480,7 @@ pub fn run(tier: Tier) -> i32 {
         exhaustive: res.capped_at_depth.is_none(),
         caps_hit: vec![],
         assumptions: vec![
-            "parameters restricted to the grid menus (finite, positive durations; NaN/negative values not covered)".into(),
+            "parameters restricted to the grid menus (finite, positive durations; one negative tick distance; NaN not covered)".into(),
             "a tick whose distance is within 1e-9 relative of the cut-off may be present or absent".into(),
         ],
     };
